@@ -1,0 +1,14 @@
+//go:build !verif
+
+// Package verifhook: stubs used when the `verif` build tag is off.
+package verifhook
+
+func SetSink(func(point string, kv ...any)) {}
+
+func SetFault(func(point string) error) {}
+
+func Point(string, ...any) {}
+
+func Fault(string) error { return nil }
+
+const Enabled = false
